@@ -996,3 +996,18 @@ Proof.
   apply P; [lia | exact Hl | exact Hok | exact Hs | exact Hb | exact Hpos | exact Hne | exact E].
 Qed.
 End PrefixMain.
+
+(* ================================================================ LabelNamesFor and failing postings *)
+(* index.Reader.LabelNamesFor never calls postings.Err(): whether the iterator stopped because it
+   was exhausted or because it failed makes no difference to the answer *)
+Theorem label_names_for_ignores_failure crc r ids e :
+  label_names_for crc r ids (Some e) = label_names_for crc r ids None.
+Proof. reflexivity. Qed.
+
+(* so the statement "a failed postings iterator makes LabelNamesFor report an error" is false:
+   an iterator that fails before delivering anything yields the empty list of names *)
+Theorem label_names_for_refuted :
+  exists crc r ids e res, label_names_for crc r ids (Some e) = ROk res.
+Proof.
+  exists (fun _ => 0), (mkIR [] (mkTOC 0 0 0 0 0 0) [] []), [], RCrc, []. reflexivity.
+Qed.
